@@ -174,6 +174,13 @@ CATALOG = {
         "q_para_expr_min": (_p("hertz_para", E=4000.,
                                baseline={"expr": "0*E", "min": -1e-11}),
                             False),
+        # pairs that differ in nothing but a bound (q_para_4k / q_para_min /
+        # q_para_max) or in nothing but a constraint expression of a
+        # parameter that does not vary anyway and keeps its initial value
+        # (q_para_4k / q_para_exprR): seeds C03i, C10i
+        "q_para_4k": (_p("hertz_para", E=4000.), False),
+        "q_para_exprR": (_p("hertz_para", E=4000.,
+                            R={"expr": "E/4000.*1e-05"}), False),
         "q_cone_a": (_p("hertz_cone", E=4000.), False),
         "q_cone_b": (_p("hertz_cone", E=4000., alpha=30.), False),
         "q_pyr_a": (_p("hertz_pyr3s", E=4000.), False),
@@ -263,6 +270,7 @@ CATALOG = {
 }
 
 PARAMS_MODEL = {"q_para_a_hist": "hertz_para",
+                "q_para_4k": "hertz_para", "q_para_exprR": "hertz_para",
                 "q_para_expr_max": "hertz_para",
                 "q_para_expr_min": "hertz_para",
                 "q_para_near": "hertz_para", "q_para_max": "hertz_para", "q_para_expr": "hertz_para",
@@ -547,6 +555,11 @@ SLICES = {
                          "range_type": ["t_abs", "t_rel"],
                          "gcf_k": ["k_1", "k_quarter"]},
                    raters=[], mutate_pi=True),
+    # initial parameters that differ in one attribute only (bound, expr)
+    "bounds": dict(pipes=["P1"], badpipes=[],
+                   keys={"params_initial": ["q_para_4k", "q_para_exprR",
+                                            "q_para_min", "q_para_max"]},
+                   raters=[], mutate_pi=True, fit2=True),
     "model": dict(pipes=["P0", "P1"], badpipes=["B1"],
                   keys={"model_key": ["m_para", "m_cone", "m_bad"],
                         "params_initial": ["q_para_a", "q_cone_a"]},
